@@ -32,9 +32,7 @@ class _OsShim(types.ModuleType):
         types.ModuleType.__init__(self, 'os')
         self.__dict__.update(os.__dict__)
         self._seams = seams
-
-    def urandom(self, n):
-        return self._seams.urandom(n)
+        self.urandom = seams.urandom      # instance attribute: must shadow the copied one
 
 
 class _TimeShim(types.ModuleType):
